@@ -475,6 +475,14 @@ class Interp:
     def s_Expr(self, s, st):
         if isinstance(s.value, ast.Constant):
             return [("next", None, st)]      # docstring / bare constant
+        if isinstance(s.value, (ast.Yield, ast.YieldFrom)):
+            # a generator body run to exhaustion by its consumer: what is yielded is recorded, in order, in ghost state
+            # ("item", v) for `yield v`, ("from", it) for `yield from it` (the iterable is not unfolded); the value sent back
+            # is not used (statement position only)
+            tag = "from" if isinstance(s.value, ast.YieldFrom) else "item"
+            if s.value.value is None:
+                return [("next", None, st.gset("yielded", tuple(st.ghost.get("yielded", ())) + ((tag, NONE),)))]
+            return self.ev(s.value.value, st, lambda v, st2: [("next", None, st2.gset("yielded", tuple(st2.ghost.get("yielded", ())) + ((tag, v),)))])
         return self.ev(s.value, st, lambda v, st2: [("next", None, st2)])
 
     def s_Assign(self, s, st):
